@@ -938,3 +938,52 @@ func genQNear(t *rapid.T, m NetModel) Q {
 	}
 	return q
 }
+
+// modelKey is the identity of a rule "apart from the badfilter modifier":
+// exception flag, pattern and every modifier with its value set, independent of
+// the written order.
+func modelKey(m NetModel) string {
+	ss := func(xs []string) string {
+		c := append([]string{}, xs...)
+		sort.Strings(c)
+		return strings.Join(c, "|")
+	}
+	cs := func(xs []Cli) string {
+		var c []string
+		for _, x := range xs {
+			v := x.Val
+			if x.Kind == "cidr" {
+				v = netip.MustParsePrefix(v).Masked().String()
+			} else if x.Kind == "ip" {
+				v = netip.MustParseAddr(v).String()
+			}
+			c = append(c, x.Kind[:1]+":"+v)
+		}
+		sort.Strings(c)
+		return strings.Join(c, "|")
+	}
+	var extra []string
+	for _, e := range m.Extra {
+		if e != "badfilter" {
+			extra = append(extra, e)
+		}
+	}
+	rw := "<none>"
+	if m.Rewrite != nil {
+		rw = "=" + *m.Rewrite
+	}
+	pat := m.Pat
+	if strings.HasSuffix(pat, "/*") {
+		pat = pat[:len(pat)-2] + "^"
+	}
+	return strings.Join([]string{
+		boolStr(m.Exc), pat, string(rune('0' + m.TP)), boolStr(m.MC), ss(m.TIncl), ss(m.TExcl), ss(m.DPerm), ss(m.DRestr), ss(m.Deny),
+		ss(m.QPerm), ss(m.QRestr), ss(m.GPerm), ss(m.GRestr), cs(m.CPerm), cs(m.CRestr), ss(extra), rw}, "\x00")
+}
+
+func boolStr(b bool) string {
+	if b {
+		return "1"
+	}
+	return "0"
+}
